@@ -3,7 +3,9 @@
 package props
 
 import (
+	"encoding/json"
 	"fmt"
+	"github.com/pentops/j5/lib/j5codec"
 	"math/rand"
 	"net/url"
 	"runtime/debug"
@@ -36,6 +38,9 @@ func c06Decode(c *rt.C, env *codecEnv, md protoreflect.MessageDescriptor, doc []
 		c.Event("returned_error")
 	} else {
 		c.Event("returned_ok")
+	}
+	if c.Runner().Arg("show", "") != "" && strings.HasPrefix(class, c.Runner().Arg("show", "")) {
+		fmt.Printf("SHOW %s %s -> %v\n", class, rt.Clip(string(doc), 120), err)
 	}
 	if c.WantSample() && len(doc) > 10 && len(doc) < 300 && err != nil {
 		c.Sample(map[string]any{"type": string(md.FullName()), "input": string(doc), "class": class, "outcome": "error: " + rt.Clip(err.Error(), 120)})
@@ -123,6 +128,27 @@ func c06Structural(c *rt.C, env *codecEnv, m *dynamicpb.Message, rng *rand.Rand,
 			}
 		}
 		if s.kind == kJ5Any || s.kind == kPbAny {
+			// "!type" values that resolve to something which is not a message: an enum, an enum value, a field, a package
+			notMessages := []string{"google.protobuf.NullValue", "google.protobuf.FieldDescriptorProto.Type", "google.protobuf.NULL_VALUE", string(md.FullName()) + "." + string(md.Fields().Get(0).Name()), string(md.ParentFile().Package()), "." + string(md.FullName()), string(md.FullName()) + "."}
+			for _, e := range env.model.Files[0].Enums {
+				notMessages = append(notMessages, e.Full)
+			}
+			for _, nm := range notMessages {
+				for _, val := range []string{`{}`, `"x"`, `1`} {
+					old := s.val
+					w.set(s, jRaw2(`{"!type":"`+nm+`","value":`+val+`}`))
+					doc := renderTree(tree, "")
+					w.set(s, old)
+					c06Decode(c, env, md, doc, "any-type-not-a-message")
+				}
+			}
+			for _, body := range []string{`{"!type":"google.protobuf.Timestamp","value":"2020-01-01T00:00:00Z"}`, `{"!type":"google.protobuf.Timestamp","value":{}}`, `{"!type":"google.protobuf.Any","value":{"!type":"google.protobuf.Any","value":{}}}`, `{"!type":"google.protobuf.Empty","value":{}}`} {
+				old := s.val
+				w.set(s, jRaw2(body))
+				doc := renderTree(tree, "")
+				w.set(s, old)
+				c06Decode(c, env, md, doc, "any-well-known-type")
+			}
 			for _, body := range []string{`{"!type":"x"}`, `{"value":{}}`, `{"!type":"` + string(md.FullName()) + `","value":null}`, `{"!type":"` + string(md.FullName()) + `","value":[]}`, `{"!type":"` + string(md.FullName()) + `","value":{"zz":1}}`, `{"!type":"` + string(md.FullName()) + `","value":{},"value":{}}`, `{"!type":"","value":{}}`} {
 				old := s.val
 				w.set(s, jRaw2(body))
@@ -212,6 +238,73 @@ func runC06(r *rt.Runner) {
 	// still dies quickly because the CPU/stack budget is finite.
 	debug.SetMaxStack(768 << 20)
 
+	// --- well-known types with a string form: durations, timestamps, wrappers ----------------------------
+	r.Do("wkt/strings", func(c *rt.C) {
+		src := map[string]string{"verif/wkt/v1/wkt.proto": `syntax = "proto3";
+package verif.wkt.v1;
+import "google/protobuf/duration.proto";
+import "google/protobuf/timestamp.proto";
+import "google/protobuf/wrappers.proto";
+message W {
+  google.protobuf.Duration d = 1;
+  repeated google.protobuf.Duration ds = 2;
+  map<string, google.protobuf.Duration> dm = 3;
+  google.protobuf.Timestamp t = 4;
+  repeated google.protobuf.Timestamp ts = 5;
+  W next = 11;
+}
+message V {
+  google.protobuf.StringValue sv = 6;
+  google.protobuf.Int64Value iv = 7;
+  google.protobuf.BoolValue bv = 8;
+  google.protobuf.BytesValue yv = 9;
+  google.protobuf.DoubleValue dv = 10;
+  oneof pick {
+    google.protobuf.StringValue osv = 11;
+    google.protobuf.Int64Value oiv = 12;
+  }
+}
+`}
+		ct, err := compileProtoText(src)
+		if err != nil {
+			panic("harness: wkt proto does not compile: " + err.Error())
+		}
+		env := &codecEnv{name: "wkt", ct: ct, codec: j5codec.NewCodec(j5codec.WithResolver(ct.Types), j5codec.WithProtoToAny())}
+		md := ct.message("verif.wkt.v1.W")
+		durs := []string{"1s", "1.5s", "1.5000000000s", "1.000000000s", "1.0000000000s", "0.0000000001s", "0.000000001s", "1.s", ".5s", "-1.5s", "+1s", "1e3s", "s", "", "1", "1.5", "315576000000s", "315576000001s", "-315576000001s",
+			"9223372036854775807s", "9223372036854775808s", "1.5 s", "1,5s", "１s", "1s ", " 1s", "1." + strings.Repeat("0", 50) + "s", "1." + strings.Repeat("9", 20) + "s", "0.123456789s", "0.1234567890s", "0.12345678900000s", "1.-5s", "--1s", "1.5.5s", "0x10s", "1S", "1m", "1h30m", "NaNs", "Infs"}
+		stamps := []string{"2020-01-01T00:00:00Z", "2020-01-01T00:00:00.1234567890Z", "2020-01-01T00:00:00.000000000000Z", "2020-01-01T00:00:00", "2020-01-01", "2020-01-01T00:00:00+25:00", "0000-01-01T00:00:00Z", "10000-01-01T00:00:00Z", "2020-02-30T00:00:00Z", "2020-01-01T24:00:00Z", "2020-01-01t00:00:00z", "", "now", "1577836800"}
+		lits := []string{`1.5`, `true`, `null`, `{}`, `[]`, `{"seconds":1}`, `-0`, `1e400`}
+		doc := func(field, val string) []byte { return []byte(`{"` + field + `":` + val + `}`) }
+		q := func(s string) string { b, _ := json.Marshal(s); return string(b) }
+		for _, d := range durs {
+			c06Decode(c, env, md, doc("d", q(d)), "wkt-duration")
+			c06Decode(c, env, md, doc("ds", "["+q(d)+"]"), "wkt-duration")
+			c06Decode(c, env, md, doc("dm", `{"k":`+q(d)+`}`), "wkt-duration")
+			c06Decode(c, env, md, doc("next", `{"next":{"d":`+q(d)+`}}`), "wkt-duration")
+			c06Query(c, env, md, url.Values{"d": {d}}, "wkt-duration-query")
+			c06Query(c, env, md, url.Values{"ds": {d, d}}, "wkt-duration-query")
+		}
+		for _, t := range stamps {
+			c06Decode(c, env, md, doc("t", q(t)), "wkt-timestamp")
+			c06Decode(c, env, md, doc("ts", "["+q(t)+"]"), "wkt-timestamp")
+			c06Query(c, env, md, url.Values{"t": {t}}, "wkt-timestamp-query")
+		}
+		mv := ct.message("verif.wkt.v1.V")
+		for _, f := range []string{"d", "t", "sv", "iv", "bv", "yv", "dv", "osv", "oiv"} {
+			target := mv
+			if f == "d" || f == "t" {
+				target = md
+			}
+			for _, l := range lits {
+				c06Decode(c, env, target, doc(f, l), "wkt-literal")
+			}
+			for _, sv := range []string{"", "x", "1", "-1", "true", "AA==", "not base64!", "9223372036854775808", "1e400", "NaN"} {
+				c06Decode(c, env, target, doc(f, q(sv)), "wkt-wrapper-string")
+				c06Query(c, env, target, url.Values{f: {sv}}, "wkt-wrapper-query")
+			}
+		}
+	})
 	// --- structural mutations of canonical documents -----------------------------------------
 	for cur := 0; cur < 10; cur++ {
 		r.Do(fmt.Sprintf("sink/struct/%d", cur), func(c *rt.C) {
